@@ -162,10 +162,17 @@ Faults ==
                                            b.steps[2] >>] }
           \* a modification that keeps the reservation, and then the closing Get SDR Repository Info fails once: the walk
           \* cannot have been validated, so it is repeated
-          \cup { LET post == Repo(bb[1] * 10 + bb[2] + 500 + Seed, bb[1], TRUE)
-                     b == Script("modkeep-then-info-fault-" \o ToString(k) \o "-" \o kind, pre, post, [kind |-> "modify", at |-> k, strict |-> TRUE, stamp |-> "erase", keep |-> TRUE]) IN
+          \* (the first record is replaced under its own ID after the walk has read it, so nothing but the time stamps tells)
+          \cup { LET preF == [i \in 1..3 |-> FullRec(100 * i + bb[2], 50 + i + Seed)]
+                     postF == [preF EXCEPT ![1] = FullRec(preF[1].id, 90 + Seed)]
+                     b == Script("modkeep-then-info-fault-" \o ToString(k) \o "-" \o kind \o "-" \o st, preF, postF, [kind |-> "modify", at |-> k, strict |-> TRUE, stamp |-> st, keep |-> TRUE]) IN
                  [b EXCEPT !.steps = << [b.steps[1] EXCEPT !.rules = << FaultRule(32, "i", 1, kind) >> \o @, !.state = @ @@ [f |-> 0, r |-> 0]], b.steps[2] >>]
-                 : k \in {1, 2, WalkReqs(pre)}, kind \in {"cc", "lost"} }
+                 : k \in {3, 4, 6}, kind \in {"cc", "lost"}, st \in {"add", "erase"} }
+          \* ... and the same modification without a fault (the time stamps alone must make the walk repeat)
+          \cup { LET preF == [i \in 1..3 |-> FullRec(100 * i + bb[2], 50 + i + Seed)]
+                     postF == [preF EXCEPT ![1] = FullRec(preF[1].id, 90 + Seed)] IN
+                 Script("modkeep-inplace-" \o ToString(k) \o "-" \o st, preF, postF, [kind |-> "modify", at |-> k, strict |-> TRUE, stamp |-> st, keep |-> TRUE])
+                 : k \in {3, 4, 6}, st \in {"add", "erase"} }
           \cup { FaultScript("fault-info-" \o ToString(bb[1]) \o "-" \o ToString(i) \o "-" \o kind, pre, 32, "i", i, kind) : i \in 0..1, kind \in {"cc", "lost", "short"} }
           \cup { FaultScript("fault-resv-" \o ToString(bb[1]) \o "-" \o kind, pre, 34, "r", 0, kind) : kind \in {"cc", "lost", "short"} }
           : bb \in (IF Full THEN {<<3, 1>>, <<5, 2>>, <<2, 3>>} ELSE {<<3, 1>>}) }
